@@ -91,7 +91,7 @@ def _copy_default(t):
     return rewrite(t, rw)
 
 
-def run(r):
+def _rules(r, pre, purity):
     rep = r.rep
     rep.explanation = "Column schemes were folded per class, weight selection per column name; attribute chains, keyword forwarding, CDR expansion, validation order and write sets were analysed."
     rep.trust(LIB_FACTS["rapidfuzz.weights"], LIB_FACTS["rapidfuzz.cdist"], LIB_FACTS["squareform"], LIB_FACTS["Series.map"], LIB_FACTS["DataFrame.copy"])
@@ -107,7 +107,7 @@ def run(r):
         got_scope = (sc["_chain_scope"][1].rsplit(".", 1)[1], sc["_cdr_scope"][1].rsplit(".", 1)[1])
         ci = r.P.classes[T + cname]
         w = f"{r.P.modules[ci.module].relpath}:{ci.node.lineno}"
-        rep.ob("C09-COL", T + cname, got_scope == (chain, cdr), f"{cname} is declared with chain scope {chain} and loop scope {cdr}", w, expected=f"{chain}, {cdr}", found=str(got_scope), key="scope table")
+        rep.ob(pre + "C09-COL", T + cname, got_scope == (chain, cdr), f"{cname} is declared with chain scope {chain} and loop scope {cdr}", w, expected=f"{chain}, {cdr}", found=str(got_scope), key="scope table")
         m = {("attr", selft, a): v for a, v in sc.items()}
         from ..rules import inline_new_module_vars, rewrite as _rw, small_rewrites
         try:
@@ -118,7 +118,7 @@ def run(r):
         loops = ["CDR3"] + (["CDR1", "CDR2"] if cdr == "ALL" else [])
         chains = {"ALPHA": ["A"], "BETA": ["B"], "PAIRED": ["A", "B"]}[chain]
         want = sorted(l + c for l in loops for c in chains)
-        rep.ob("C09-COL", T + cname, sorted(cols) == want and len(cols) == len(set(cols)), f"{cname} compares exactly the loops x chains in its scope, each once", w, expected=str(want), found=str(sorted(cols)), key="columns")
+        rep.ob(pre + "C09-COL", T + cname, sorted(cols) == want and len(cols) == len(set(cols)), f"{cname} compares exactly the loops x chains in its scope, each once", w, expected=str(want), found=str(sorted(cols)), key="columns")
     # ---- C09-WT
     q = base + "_calc_cdist_matrix_for_column"
     s = r.A.summary(q)
@@ -153,9 +153,9 @@ def run(r):
             c = strip(cd[0])
             oka = len(c[2]) >= 2 and strip_all(c[2][0]) == ("sub", ("param", pn[1]), const(col)) and strip_all(c[2][1]) == ("sub", ("param", pn[2]), const(col)) and dict(c[3]).get("scorer") == ("attr", selft, "_scorer") \
                 and "dtype" not in dict(c[3]) and "score_cutoff" not in dict(c[3])
-            rep.ob("C09-WT", q, oka, f"column {col}: per-column distances are process.cdist(anchors[{col}], comparisons[{col}], scorer=self._scorer)", where_of(r.P, s.func, s.func.node),
+            rep.ob(pre + "C09-WT", q, oka, f"column {col}: per-column distances are process.cdist(anchors[{col}], comparisons[{col}], scorer=self._scorer)", where_of(r.P, s.func, s.func.node),
                    expected="anchors first, the metric's scorer, no narrow dtype / cut-off", found=show(c, 120), key=f"cdist {col}")
-        rep.ob("C09-WT", q, ok, f"column {col}: distances are scaled by exactly {chain_attr} and {cdr_attr}", where_of(r.P, s.func, s.func.node),
+        rep.ob(pre + "C09-WT", q, ok, f"column {col}: distances are scaled by exactly {chain_attr} and {cdr_attr}", where_of(r.P, s.func, s.func.node),
                expected=f"cdist * self._chain_weights.{chain_attr} * self._cdr_weights.{cdr_attr}", found=found, key=f"weights {col}")
     # attribute chains: constructor parameter -> ChainWeights / CdrWeights parameter -> same-named attribute
     init = r.A.summary(base + "__init__")
@@ -167,7 +167,7 @@ def run(r):
             # the weights record is a NamedTuple: field a of the stored tuple must be the constructor's parameter a
             for a in attrs:
                 through = v[1][fields.index(a)] if head(v) == "tuple" and a in fields and len(v[1]) == len(fields) else None
-                rep.ob("C09-WT", base + "__init__", through is not None and strip(through) == ("param", a), f"self.{holder}.{a} is the constructor's '{a}'", where_of(r.P, init.func, init.func.node),
+                rep.ob(pre + "C09-WT", base + "__init__", through is not None and strip(through) == ("param", a), f"self.{holder}.{a} is the constructor's '{a}'", where_of(r.P, init.func, init.func.node),
                        expected=f"{cls}(...).{a} <- parameter {a}", found=f"{a} <- {show(through, 30) if through is not None else show(v, 60)}", key=f"chain {holder}.{a}")
             continue
         if (T + cls + ".__init__") not in r.P.functions:
@@ -179,7 +179,7 @@ def run(r):
             stored = strip(hs.env.get(("@attr", selft, a), NONE))
             through = bind.get(stored) if (bind and head(stored) == "param") else None
             ok = through is not None and strip(through) == ("param", a)
-            rep.ob("C09-WT", base + "__init__", ok, f"self.{holder}.{a} is the constructor's '{a}'", where_of(r.P, init.func, init.func.node), expected=f"{cls}(...).{a} <- parameter {a}",
+            rep.ob(pre + "C09-WT", base + "__init__", ok, f"self.{holder}.{a} is the constructor's '{a}'", where_of(r.P, init.func, init.func.node), expected=f"{cls}(...).{a} <- parameter {a}",
                    found=f"{a} <- {show(stored, 30)} <- {show(through, 30)}", key=f"chain {holder}.{a}")
     # every subclass forwards each keyword to the same-named keyword
     for cname in CLASSES:
@@ -193,12 +193,12 @@ def run(r):
             raise AnalysisBroken(f"{iq}: expected one super().__init__ call")
         c = strip(sup[0]["term"])
         okf = not c[2] and all(strip(v) == ("param", k) for k, v in c[3]) and {k for k, _ in c[3]} == {p[0] for p in ss.params if p[0] != "self"}
-        rep.ob("C09-WT", iq, okf, f"{cname} forwards every constructor keyword to the same-named keyword of TcrLevenshtein", where_of(r.P, ss.func, sup[0].node), expected="k=k for every parameter", found=show(c, 160), key="forwarding")
-    check_scorer(r, "C09-WT", base + "__init__")
+        rep.ob(pre + "C09-WT", iq, okf, f"{cname} forwards every constructor keyword to the same-named keyword of TcrLevenshtein", where_of(r.P, ss.func, sup[0].node), expected="k=k for every parameter", found=show(c, 160), key="forwarding")
+    check_scorer(r, pre + "C09-WT", base + "__init__")
     # ---- C09-SUM / C09-CDR / C09-VAL / C09-PV
     eqs = Equiv(rewrites=std_rewrites() + [canon_binders, cdist_rewrite], modelled={"tidytcells.tr.get_aa_sequence", "scipy.spatial.distance.squareform", "pandas.DataFrame"} | TRIANGLE_SELECTORS)
-    compare_function(r, "C09-SUM", base + "calc_cdist_matrix", SPEC, "result = sum over all columns in scope of the per-column weighted cdist; V-gene CDRs expanded (on both tables) iff the loop scope is ALL", eq=eqs, key="sum over columns")
-    compare_function(r, "C09-CDR", base + "_get_cdr1_from_v_gene_if_possible", SPEC, "a CDR loop is read from tidytcells' sequence data of the V allele, '' when the allele has no such loop", eq=eqs, key="loop lookup")
+    compare_function(r, pre + "C09-SUM", base + "calc_cdist_matrix", SPEC, "result = sum over all columns in scope of the per-column weighted cdist; V-gene CDRs expanded (on both tables) iff the loop scope is ALL", eq=eqs, key="sum over columns")
+    compare_function(r, pre + "C09-CDR", base + "_get_cdr1_from_v_gene_if_possible", SPEC, "a CDR loop is read from tidytcells' sequence data of the V allele, '' when the allele has no such loop", eq=eqs, key="loop lookup")
     e_s = r.A.summary(base + "_expand_v_gene_cdrs").assuming_assertions().mapped(_copy_default)     # a failing assert raises; it does not change the expanded table
     rep.analysed(base + "_expand_v_gene_cdrs")
     dfp = ("param", e_s.params[1][0])
@@ -261,7 +261,7 @@ def run(r):
     if undecided:
         rep.require(False, f"C09-CDR: {base}_expand_v_gene_cdrs: {undecided} is outside the idiom list; cannot decide")
     else:
-        rep.ob("C09-CDR", base + "_expand_v_gene_cdrs", set(colvals) == {"CDR1A", "CDR2A", "CDR1B", "CDR2B"}, "exactly the four V-gene loop columns are added", w_e,
+        rep.ob(pre + "C09-CDR", base + "_expand_v_gene_cdrs", set(colvals) == {"CDR1A", "CDR2A", "CDR1B", "CDR2B"}, "exactly the four V-gene loop columns are added", w_e,
                expected="CDR1A, CDR2A, CDR1B, CDR2B", found=", ".join(sorted(colvals)), key="expansion columns")
         eqc = Equiv(rewrites=std_rewrites() + [canon_binders, col_access], modelled={".map"})
         for nm in sorted(colvals):
@@ -269,31 +269,43 @@ def run(r):
             lamid = ("#spec", nm)
             want = ("call", ("attr", ("sub", table, const(gene)), "map"),
                     (("lam", lamid, (("v", None, "pos"),), ("call", ("attr", selft, "_get_cdr1_from_v_gene_if_possible"), (("lparam", lamid, "v"), const(loop)), ())),), ())
-            check_equiv(rep, "C09-CDR", base + "_expand_v_gene_cdrs", f"{nm} is the {loop} loop of the row's {gene} allele, cell by cell (Series.map), written to a copy", colvals[nm], want, w_e,
+            check_equiv(rep, pre + "C09-CDR", base + "_expand_v_gene_cdrs", f"{nm} is the {loop} loop of the row's {gene} allele, cell by cell (Series.map), written to a copy", colvals[nm], want, w_e,
                         eq=Equiv(rewrites=eqc.rewrites, modelled=eqc.modelled).bind(r, cls=T + "TcrLevenshtein"), key=f"expansion {nm}")
-    rep.ob("C09-CDR", base + "_expand_v_gene_cdrs", strip_all(e_s.ret) == copy or (table == dfp and bool(colvals)), "the expanded copy is returned", w_e, expected="df.copy()", found=show(e_s.ret, 40), key="expansion result")
+    if purity:
+      rep.ob(pre + "C09-CDR", base + "_expand_v_gene_cdrs", strip_all(e_s.ret) == copy or (table == dfp and bool(colvals)), "the expanded copy is returned", w_e, expected="df.copy()", found=show(e_s.ret, 40), key="expansion result")
     # validation dominates
-    compare_function(r, "C09-VAL", B + "TcrMetric.calc_cdist_matrix", SPEC, "non-standard anchors / comparisons raise ValueError", fname="base_cdist", eq=eqs, key="base cdist validation")
-    compare_function(r, "C09-VAL", B + "TcrMetric.calc_pdist_vector", SPEC, "non-standard instances raise ValueError", fname="base_pdist", eq=eqs, key="base pdist validation")
-    compare_function(r, "C09-VAL", B + "is_in_standard_format", SPEC, "standard format = a DataFrame with at least one of the six TCR columns", eq=eqs, key="standard format")
+    compare_function(r, pre + "C09-VAL", B + "TcrMetric.calc_cdist_matrix", SPEC, "non-standard anchors / comparisons raise ValueError", fname="base_cdist", eq=eqs, key="base cdist validation")
+    compare_function(r, pre + "C09-VAL", B + "TcrMetric.calc_pdist_vector", SPEC, "non-standard instances raise ValueError", fname="base_pdist", eq=eqs, key="base pdist validation")
+    compare_function(r, pre + "C09-VAL", B + "is_in_standard_format", SPEC, "standard format = a DataFrame with at least one of the six TCR columns", eq=eqs, key="standard format")
     for mname, nargs in (("calc_cdist_matrix", 2), ("calc_pdist_vector", 1)):
         ms = r.A.summary(base + mname)
         first = [e for e in ms.events if e.kind in ("call", "load_sub", "setitem") and not (e.kind == "call" and strip(strip(e["term"])[1]) == ("glob", "builtins.super"))][0]
         c = strip(first["term"]) if first.kind == "call" else None
         ok = c is not None and head(strip(c[1])) == "attr" and strip(c[1])[2] == mname and strip(strip(strip(c[1])[1])[1]) == ("glob", "builtins.super") if c is not None and head(strip(strip(c[1])[1])) == "call" else False
         ok = ok and tuple(strip(a) for a in c[2]) == tuple(("param", p[0]) for p in ms.params[1:1 + nargs]) and not first.ctx.guards
-        rep.ob("C09-VAL", base + mname, ok, "the base-class validation runs first, on the caller's arguments", where_of(r.P, ms.func, first.node), expected=f"super().{mname}(...) before any other use", found=show(first.data.get("term"), 80), key="validation first")
-    compare_function(r, "C09-PV", base + "calc_pdist_vector", C08_SPEC, "pdist vector = squareform(checks=False) of the self cdist of one and the same table", fname="calc_pdist_vector", eq=eqs, key="pdist vector")
+        rep.ob(pre + "C09-VAL", base + mname, ok, "the base-class validation runs first, on the caller's arguments", where_of(r.P, ms.func, first.node), expected=f"super().{mname}(...) before any other use", found=show(first.data.get("term"), 80), key="validation first")
+    compare_function(r, pre + "C09-PV", base + "calc_pdist_vector", C08_SPEC, "pdist vector = squareform(checks=False) of the self cdist of one and the same table", fname="calc_pdist_vector", eq=eqs, key="pdist vector")
     # ---- C09-PURE
-    E = Effects(r.P, r.A)
-    for mq, params in ((base + "calc_cdist_matrix", ["anchors", "comparisons"]), (base + "calc_pdist_vector", ["instances"]), (base + "_expand_v_gene_cdrs", ["df"]), (base + "_calc_cdist_matrix_for_column", ["anchors", "comparisons"])):
-        for p in params:
-            if p not in [x[0] for x in r.A.summary(mq).params]:
-                raise AnalysisBroken(f"{mq}: parameter {p} vanished")
-            hit = E.mut[mq].get(p)
-            rep.ob("C09-PURE", mq, hit is None, f"the caller's table '{p}' is left unmodified", where_of(r.P, r.P.functions[mq], r.P.functions[mq].node), expected="no write", found=hit[0] if hit else "no write", key=f"pure {p}")
-    for rule, fl in (("C09-COL", 12), ("C09-WT", 20), ("C09-SUM", 1), ("C09-CDR", 6), ("C09-VAL", 5), ("C09-PV", 1), ("C09-PURE", 6)):
-        rep.floor(rule, fl)
+    if purity:
+        E = Effects(r.P, r.A)
+        for mq, params in ((base + "calc_cdist_matrix", ["anchors", "comparisons"]), (base + "calc_pdist_vector", ["instances"]), (base + "_expand_v_gene_cdrs", ["df"]), (base + "_calc_cdist_matrix_for_column", ["anchors", "comparisons"])):
+            for p in params:
+                if p not in [x[0] for x in r.A.summary(mq).params]:
+                    raise AnalysisBroken(f"{mq}: parameter {p} vanished")
+                hit = E.mut[mq].get(p)
+                rep.ob("C09-PURE", mq, hit is None, f"the caller's table '{p}' is left unmodified", where_of(r.P, r.P.functions[mq], r.P.functions[mq].node), expected="no write", found=hit[0] if hit else "no write", key=f"pure {p}")
+        rep.floor("C09-PURE", 6)
+    for rule, fl in (("C09-COL", 12), ("C09-WT", 20), ("C09-SUM", 1), ("C09-CDR", 5), ("C09-VAL", 5), ("C09-PV", 1)):
+        rep.floor(pre + rule, fl)
+
+
+def value_rules(r, pre=""):
+    """What the TcrLevenshtein family returns (columns, weights, sum, loop lookup, validation, condensed form) - run for dependent properties too."""
+    _rules(r, pre, purity=False)
+
+
+def run(r):
+    _rules(r, "", purity=True)
 
 
 from ..selftest import V  # noqa: E402
